@@ -85,6 +85,9 @@ void AspifTextInput::matchRule(char c) {
 		else {
 			data_->rule.startSum(matchInt());
 			matchAgg();
+			for (const WeightLit_t* it = data_->rule.wlits_begin(), *end = data_->rule.wlits_end(); it != end; ++it) {
+				require(weight(*it) >= 0, "non-negative weight expected"); // rule bodies do not admit negative weights
+			}
 		}
 	}
 	match(".");
